@@ -172,6 +172,44 @@ def r5(ctx):
                  key='whitelist-reiterable', what='tag_multiome_multi_processing: the contig whitelist is a one-shot iterator')
 
 
+@rule('C08', 'C08-R6', 'every molecule with a placed read has a site some bin can own: the fallback coordinate of a fragment without a valid cut site is taken from '
+                       'the first read that HAS a coordinate (an unmapped mate placed at its partner\'s position counts), not only from mapped reads')
+def r6(ctx):
+    from .slots import P
+    n = 0
+    for rel, q in ((P + 'fragment/chic.py', 'CHICFragment.get_site_location'), (P + 'fragment/nlaIII.py', 'NlaIIIFragment.get_site_location')):
+        if not ctx.ix.has_func(rel, q):
+            continue
+        g = ctx.fn(rel, q)
+        loops = [l for l in walk_no_nested(g) if isinstance(l, ast.For) and src(l.iter) == 'self' and isinstance(l.target, ast.Name)]
+        if len(loops) != 1:
+            ctx.emit('C08-R6', False, rel, g, f'{q}: fallback loop over the reads of the fragment not found', key=f'fallback-site:{q}', undecided=True)
+            continue
+        n += 1
+        l = loops[0]
+        rv = l.target.id
+        rets = [r_ for r_ in walk_no_nested(l) if isinstance(r_, ast.Return)]
+        allowed = {f'{rv} is not None', f'{rv}.reference_name is not None', f'{rv}.reference_start is not None'}
+        extra = []
+        for r_ in rets:
+            for t_, pol in (reach_conds(l.body, r_) or []):
+                parts = t_.values if isinstance(t_, ast.BoolOp) and isinstance(t_.op, ast.And) and pol else [t_]
+                for p_ in parts:
+                    if not (pol and src(p_) in allowed):
+                        extra.append(p_)
+        ok = bool(rets) and not extra and all(src(r_.value).replace(' ', '') in (f'({rv}.reference_name,{rv}.reference_start)', f'{rv}.reference_name,{rv}.reference_start') for r_ in rets)
+        ctx.emit('C08-R6', ok, rel, extra[0] if extra else l, f'{q}: the fallback site is the coordinate of the first read that has one' if ok else
+                 f'{q}: the fallback site additionally requires `{src(extra[0]) if extra else "?"}`: a molecule whose only placed reads are flagged unmapped gets no site, '
+                 'and no bin of a tiled run writes it', key=f'fallback-site:{q}', what=f'{q}: placed-unmapped reads give no fallback site')
+    ctx.need('C08-R6', n, 1, 'get_site_location fallbacks')
+
+
+@rule('C08', 'C08-R7', 'no position of a gap is left without a bin: the bins are the steps of fill_range over the gap, remainder included (shared with C17-R6)')
+def r7(ctx):
+    from . import C17
+    C17.bin_source(ctx, 'C08-R7')
+
+
 META = {
     'text': ('Decides: the per-job ownership test equals "other contig or site outside the half-open [start, end)" on every ordering, and the '
              'tested site is the molecule cut site; the early stop compares the site with the FETCH end; reads are fetched from the fetch window; '
